@@ -6,20 +6,34 @@ Correspondence (model lean/SV/Model/C20.lean vs the real code, same inputs):
              `include()/exclude()` filter chains, on SDL-loaded and on (also malformed) introspection-JSON schemas;
   lookups  : histories of `schema[T][f]` on one schema object (OperationCache), exhaustive up to length 3 + random;
   call     : what `graphql_cases` asks of hypothesis-graphql (factory, fields, scalars, settings) — observed with a spy;
-  body     : `prepare_body`.
-Replay: the Lean specification (lean/SV/Spec/C20.lean) and independent Python oracles (graphql-core's own view of the
-schema, `re`, graphql.parse/validate) judge what the real code produced.
+  body     : `prepare_body`;
+  scalars  : the nine built-in strategies of `get_extra_scalar_strategies` (model lean/SV/Model/C20Scalars.lean) are
+             run on chosen choice sequences (Hypothesis' ConjectureData): every integer choice the real strategy makes
+             is moved to the ends of the range it asked for, base draws (n / y-m-d / h-m-s-us) are forced and the node
+             compared with the model's `render`; the family integers(lo, hi).map(nodes.Int) against `renderInts`,
+             `intsWithinLong`, `longWitness`;
+  steered  : whole documents of schemas full of built-in scalars, with the wide integer choices of
+             `operation.as_strategy()` moved to their bounds.
+Replay: the Lean specification (lean/SV/Spec/C20.lean, C20Scalars.lean) and independent Python oracles (graphql-core's
+own view of the schema, `re`, graphql.parse/validate, struct/calendar/socket.inet_pton for scalar literals) judge what
+the real code produced.
 Sampled only (labelled): the documents drawn through hypothesis-graphql parse, validate, target their field and carry
-acceptable argument values (custom scalars, nulls, \\x00, codec).
+acceptable values for GraphQL's own scalars, nulls, \\x00, codec.
 """
 from __future__ import annotations
 
 import atexit
+import calendar
 import copy
+import io
 import itertools
+import json
 import os
+import random as _random
 import re
 import shutil
+import socket
+import struct
 import tempfile
 import traceback
 from contextlib import contextmanager
@@ -42,8 +56,17 @@ from schemathesis.specs.graphql import scalars as gql_scalars  # noqa: E402
 from schemathesis.specs.graphql import schemas as gql_schemas  # noqa: E402
 from schemathesis.transport.prepare import prepare_body  # noqa: E402
 
+from schemathesis.specs.graphql import nodes as gql_nodes  # noqa: E402
+
 from harness.core import InfraError  # noqa: E402
 from harness.gens import c20_sdl  # noqa: E402
+
+try:  # Hypothesis' choice-sequence layer (pinned 6.168): run a strategy on a chosen choice sequence
+    from hypothesis.control import BuildContext  # noqa: E402
+    from hypothesis.errors import UnsatisfiedAssumption  # noqa: E402
+    from hypothesis.internal.conjecture.data import ConjectureData, StopTest  # noqa: E402
+except ImportError as _e:  # pragma: no cover
+    raise InfraError(f"Hypothesis internals needed to steer strategies are missing: {_e}")
 
 KF_F27 = "C20:FieldMap._init_operation:operation-cache-keyed-by-field-name-only"
 LOCATION = "http://127.0.0.1/graphql"
@@ -510,20 +533,484 @@ def check_body(chk, rng, n, mechanism="body:prepare_body"):
                           {"kind": "body", "a": a})
 
 
+# ---- steering real Hypothesis strategies --------------------------------------------------------------------------------
+
+def _noop_test():
+    return None
+
+
+def drive(strategy, prefix, seed):
+    """One execution of a real strategy on a chosen choice sequence: the first len(prefix) choices are the given ones
+    (a choice the strategy does not permit at that point is replaced by Hypothesis: `misaligned_at`), the rest random.
+    -> (value | None, ConjectureData)"""
+    data = ConjectureData(random=_random.Random(seed), prefix=tuple(prefix))
+    try:
+        with BuildContext(data, wrapped_test=_noop_test):
+            value = data.draw(strategy)
+    except (StopTest, UnsatisfiedAssumption):
+        return None, data
+    data.freeze()
+    return value, data
+
+
+def aligned(data, prefix):
+    return data.misaligned_at is None and len(data.nodes) >= len(prefix) and \
+        all(type(n.value) is type(c) and n.value == c for n, c in zip(data.nodes, prefix))
+
+
+WIDE = 2 ** 16
+INT_POOL = [0, 1, -1, 2 ** 31 - 1, 2 ** 31, -(2 ** 31), -(2 ** 31) - 1, 2 ** 53, 2 ** 63 - 1, 2 ** 63, -(2 ** 63),
+            -(2 ** 63) - 1, 2 ** 64 - 1, 2 ** 64, -(2 ** 64), 10 ** 30, -(10 ** 30)]
+
+
+def node_candidates(node, wide_only):
+    """boundary values of the range the real strategy asked Hypothesis for at this choice"""
+    if node.type == "boolean":
+        return [] if wide_only else [not node.value]
+    if node.type == "bytes":     # e.g. binary(min_size=4, max_size=4).map(IPv4Address): all-zero / all-one bit patterns
+        n = node.constraints["min_size"]
+        return [x for x in (b"\x00" * n, b"\xff" * n) if x != node.value] if 0 < n <= 64 else []
+    if node.type != "integer":
+        return []
+    lo, hi = node.constraints["min_value"], node.constraints["max_value"]
+    narrow = lo is not None and hi is not None and hi - lo < WIDE
+    if wide_only and narrow:
+        return []
+    c = []
+    if lo is not None:
+        c += [lo] if wide_only else [lo, lo + 1]
+    if hi is not None:
+        c += [hi] if wide_only else [hi, hi - 1]
+    if wide_only:       # whole documents: only the very ends (or, unbounded, the 64-bit edges)
+        c += [] if lo is not None and hi is not None else [2 ** 63 - 1, 2 ** 63, -(2 ** 63), -(2 ** 63) - 1]
+    else:
+        c += [0, 1, -1] if narrow else INT_POOL
+    return [x for x in dict.fromkeys(c) if (lo is None or lo <= x) and (hi is None or x <= hi) and x != node.value]
+
+
+def extreme_choice(node, pick):
+    if node.type == "boolean":
+        return pick == "max"
+    if node.type == "integer":
+        b = node.constraints["min_value" if pick == "min" else "max_value"]
+        return b if b is not None else (-(2 ** 64) if pick == "min" else 2 ** 64)
+    if node.type == "bytes" and 0 < node.constraints["min_size"] <= 64:
+        return (b"\x00" if pick == "min" else b"\xff") * node.constraints["min_size"]
+    return node.value
+
+
+def explore(strategy, rng, n_base, max_runs, wide_only=False, greedy=True):
+    """{choice sequence: value} of a real strategy: greedy all-min / all-max runs, random base runs, and every integer
+    choice of a base run moved to the boundary values of its range (the later choices re-drawn)"""
+    out = {}
+    runs = 0
+
+    def go(prefix):
+        nonlocal runs
+        runs += 1
+        value, data = drive(strategy, prefix, rng.randrange(2 ** 31))
+        if value is not None and aligned(data, prefix):
+            out.setdefault(tuple(n.value for n in data.nodes), value)
+        return value, data
+
+    if greedy:
+        for pick in ("min", "max"):
+            prefix = []
+            for _ in range(48):
+                value, data = go(prefix)
+                if len(data.nodes) <= len(prefix):
+                    break
+                prefix.append(extreme_choice(data.nodes[len(prefix)], pick))
+    for _ in range(n_base):
+        value, data = go(())
+        if value is None:
+            continue
+        choices = [n.value for n in data.nodes]
+        for i, node in enumerate(data.nodes):
+            for cand in node_candidates(node, wide_only):
+                if runs >= max_runs:
+                    return out
+                go(choices[:i] + [cand])
+    return out
+
+
+def enc_choices(choices):
+    out = []
+    for c in choices:
+        if isinstance(c, bool):
+            out.append(["b", c])
+        elif isinstance(c, int):
+            out.append(["i", str(c)])
+        elif isinstance(c, float):
+            out.append(["f", c.hex()])
+        elif isinstance(c, str):
+            out.append(["s", [ord(x) for x in c]])
+        else:
+            out.append(["y", list(c)])
+    return out
+
+
+def dec_choices(enc):
+    f = {"b": bool, "i": int, "f": float.fromhex, "s": lambda v: "".join(map(chr, v)), "y": bytes}
+    return [f[k](v) for k, v in enc]
+
+
+# ---- scalar literals: wire format and independent oracles ---------------------------------------------------------------
+
+INT_RE = re.compile(r"-?(0|[1-9][0-9]*)\Z")
+DATE_RE = re.compile(r"([0-9]{4})-([0-9]{2})-([0-9]{2})\Z")
+TIME_RE = re.compile(r"([0-9]{2}):([0-9]{2}):([0-9]{2})(\.[0-9]+)?(Z|[+-]([0-9]{2}):([0-9]{2}))\Z")
+UUID_RE = re.compile(r"[0-9a-fA-F]{8}-[0-9a-fA-F]{4}-[0-9a-fA-F]{4}-[0-9a-fA-F]{4}-[0-9a-fA-F]{12}\Z")
+INT_SCALARS = ("Long", "BigInt")
+
+
+def node_wire(v):
+    if isinstance(v, graphql.IntValueNode) and isinstance(v.value, str):
+        return {"k": "int", "t": v.value}
+    if isinstance(v, graphql.StringValueNode) and isinstance(v.value, str):
+        return {"k": "str", "t": v.value}
+    if isinstance(v, graphql.NullValueNode):
+        return {"k": "null"}
+    return {"k": "other", "t": type(v).__name__}
+
+
+def _py_date(t):
+    m = DATE_RE.match(t)
+    if not m:
+        return False
+    y, mo, d = map(int, m.groups())
+    return 1 <= mo <= 12 and 1 <= d <= (29 if mo == 2 and calendar.isleap(y) else calendar.mdays[mo])
+
+
+def _py_time(t):
+    m = TIME_RE.match(t)
+    if not m:
+        return False
+    h, mi, sec = int(m.group(1)), int(m.group(2)), int(m.group(3))
+    if m.group(5) != "Z" and not (int(m.group(6)) <= 23 and int(m.group(7)) <= 59):
+        return False
+    return h <= 23 and mi <= 59 and sec <= 60
+
+
+def _py_inet(family, t):
+    try:
+        socket.inet_pton(family, t)
+        return True
+    except (OSError, ValueError):
+        return False
+
+
+def py_acceptable(name, node):
+    """independent oracle (stdlib struct / calendar / libc inet_pton / re) for the nine built-in scalars"""
+    k, t = node["k"], node.get("t")
+    if name in INT_SCALARS:
+        if k != "int" or not INT_RE.match(t):
+            return False
+        if name == "BigInt":
+            return True
+        try:
+            struct.pack(">q", int(t))
+            return True
+        except struct.error:
+            return False
+    if k != "str" or not t.isascii():
+        return False
+    if name == "Date":
+        return _py_date(t)
+    if name == "Time":
+        return _py_time(t)
+    if name == "DateTime":
+        return len(t) > 11 and t[10] == "T" and _py_date(t[:10]) and _py_time(t[11:])
+    if name == "IPv4":
+        return _py_inet(socket.AF_INET, t)
+    if name == "IPv6":
+        return _py_inet(socket.AF_INET6, t)
+    if name == "IP":
+        return _py_inet(socket.AF_INET, t) or _py_inet(socket.AF_INET6, t)
+    if name == "UUID":
+        return UUID_RE.match(t) is not None
+    raise InfraError(f"no oracle for scalar {name}")
+
+
+def unacceptable_shape(name, node):
+    if name in INT_SCALARS:
+        if node["k"] != "int":
+            return "wrong-node-kind"
+        return "int-out-of-64-bit-range" if INT_RE.match(node["t"]) else "not-an-int-literal"
+    return "wrong-node-kind" if node["k"] != "str" else "malformed-text"
+
+
+def judge_scalar_nodes(chk, items):
+    """items: [(scalar name, node wire)] -> [(acceptable | None, inModel | None)] by the Lean spec / model, the spec
+    cross-checked with the python oracle (a disagreement between the two judges is an infrastructure error)"""
+    sendable = [i for i, (_, nd) in enumerate(items) if nd.get("t") is None or nd["t"].isascii()]
+    outs = chk.driver().batch([("scalar_judge", {"name": items[i][0], "node": items[i][1]}) for i in sendable])
+    res = [(False, False)] * len(items)          # non-ASCII text: none of the nine scalars admits it
+    for i, m in zip(sendable, outs):
+        if "__err__" in m:
+            raise InfraError(f"model error {m} on {items[i]}")
+        name, nd = items[i]
+        if m["acceptable"] is not None and name in c20_sdl.EXTRA_SCALARS:
+            want = py_acceptable(name, nd)
+            if want != m["acceptable"]:
+                raise InfraError(f"Lean spec ({m['acceptable']}) and python oracle ({want}) disagree on {name} {nd}")
+        res[i] = (m["acceptable"], m["inModel"])
+    return res
+
+
+# ---- the built-in scalar strategies ----------------------------------------------------------------------------------
+
+LAYOUT = {"Long": ("int", 1), "BigInt": ("int", 1), "Date": ("date", 3), "Time": ("time", 5), "DateTime": ("dateTime", 8)}
+
+
+def gen_draw(rng, kind):
+    """a base draw of the modelled shape, heavy on the edges of (and just outside) the supports"""
+    if kind == "int":
+        r = rng.random()
+        if r < 0.5:
+            return ["int", str(rng.choice(INT_POOL) + rng.choice([0, 0, 1, -1]))]
+        if r < 0.8:
+            return ["int", str(rng.randint(-(2 ** 70), 2 ** 70))]
+        return ["int", str(rng.randint(-1000, 1000))]
+    y = rng.choice([1, 4, 100, 400, 1900, 2000, 2023, 2024, 9999, rng.randint(1, 9999), 0, 10000])
+    m = rng.choice([1, 2, 2, 4, 12, rng.randint(1, 12), 0, 13])
+    d = rng.choice([1, 28, 29, 30, 31, rng.randint(1, 31), 0, 32])
+    h = rng.choice([0, 23, rng.randint(0, 23), 24])
+    mi = rng.choice([0, 59, rng.randint(0, 59), 60])
+    sec = rng.choice([0, 59, rng.randint(0, 59), 60])
+    us = rng.choice([0, 0, 1, 999999, rng.randint(0, 999999), 10 ** 6])
+    if kind == "date":
+        return ["date", y, m, d]
+    if kind == "time":
+        return ["time", h, mi, sec, us]
+    return ["dateTime", y, m, d, h, mi, sec, us]
+
+
+def draw_prefix(draw):
+    kind, rest = draw[0], draw[1:]
+    if kind == "int":
+        return [int(rest[0])]
+    if kind == "date":
+        return list(rest)
+    if kind == "time":
+        return list(rest) + [0]          # fold
+    return list(rest) + [0]
+
+
+def check_scalar_strategies(chk, rng, n_forced, n_base, n_plain, mechanism="scalar-values"):
+    drv = chk.driver()
+    extra = gql_scalars.get_extra_scalar_strategies()
+    table = drv.one("scalar_table", {})
+    model_names = [e["name"] for e in table]
+    if list(extra) != model_names:
+        chk.feature(f"{mechanism}:table-differs-from-model")
+        chk.notes.append(f"built-in scalar names {list(extra)} differ from the model's {model_names}: "
+                         "only names the specification defines are judged")
+    observed = {}      # name -> {node json: (node wire, choices)}
+    render_mech = "scalar-render:forced-base-draws"
+
+    def see(name, value, choices):
+        nd = node_wire(value)
+        observed.setdefault(name, {}).setdefault(json.dumps(nd, sort_keys=True), (nd, list(choices)))
+
+    reqs, recs = [], []
+    for name, strat in extra.items():
+        # (a) the strategy's own decision tree, every integer choice at the ends of the range it asked for
+        for choices, value in explore(strat, rng, n_base, 40 * n_base + 200).items():
+            see(name, value, choices)
+        # (b) Hypothesis' own distribution
+        for value in draw_cases(strat, n_plain, rng.randrange(2 ** 31)):
+            see(name, value, ())
+        # (c) forced base draws of the modelled shape, the node compared with the model's `render`
+        if name not in LAYOUT or name not in model_names:
+            continue
+        kind, width = LAYOUT[name]
+        probe, pdata = drive(strat, (), rng.randrange(2 ** 31))
+        if probe is None or len(pdata.nodes) != width or any(n.type != "integer" for n in pdata.nodes):
+            chk.feature(f"{render_mech}:{name}:choice-layout-not-recognised")
+            continue
+        if kind == "int":      # the range the real strategy asks for -> the model's verdict on that family member
+            lo, hi = pdata.nodes[0].constraints["min_value"], pdata.nodes[0].constraints["max_value"]
+            fam = drv.one("ints", {"lo": None if lo is None else str(lo), "hi": None if hi is None else str(hi)})
+            chk.feature(f"{render_mech}:{name}:observed-range-safe-for-Long={fam['safeForLong']}")
+            if name == "Long" and not fam["safeForLong"]:
+                w = int(fam["witness"])     # the model's failing draw, tried on the real strategy
+                value, data = drive(strat, [w], 0)
+                if value is not None and aligned(data, [w]):
+                    see(name, value, [w])
+        model_edges = [d for e in table if e["name"] == name for d, _ in e["boundary"]]
+        for i in range(n_forced + len(model_edges)):
+            draw = model_edges[i] if i < len(model_edges) else gen_draw(rng, kind)
+            prefix = draw_prefix(draw)
+            value, data = drive(strat, prefix, rng.randrange(2 ** 31))
+            ok = value is not None and aligned(data, prefix)
+            if ok:
+                see(name, value, prefix)
+            reqs.append(("scalar_render", {"name": name, "draw": draw}))
+            recs.append((name, draw, prefix, node_wire(value) if ok else None))
+    outs = drv.batch(reqs)
+    differs = []
+    for (name, draw, prefix, impl), m in zip(recs, outs):
+        if isinstance(m, dict) and "__err__" in m:
+            raise InfraError(f"model error {m} on {draw}")
+        chk.case(render_mech, key=[name, draw], nontrivial=impl is not None, sample={"scalar": name, "draw": draw, "impl": impl})
+        chk.feature(f"{render_mech}:{name}:{'accepted' if impl is not None else 'rejected'}")
+        if impl is None:
+            if m is not None:   # narrower than the model: harmless for the property
+                chk.feature(f"{render_mech}:{name}:real-rejects-a-draw-the-model-accepts")
+            continue
+        if impl != m:
+            differs.append((name, draw, prefix, impl, m))
+    # judge everything that was observed
+    items = [(name, nd, ch) for name, by in observed.items() for nd, ch in by.values()]
+    verdicts = judge_scalar_nodes(chk, [(n, nd) for n, nd, _ in items])
+    bad = set()
+    outside = {}
+    for (name, nd, ch), (acc, in_model) in zip(items, verdicts):
+        chk.case(mechanism, key=[name, nd], nontrivial=True, sample={"scalar": name, "choices": enc_choices(ch), "node": nd})
+        chk.feature(f"{mechanism}:{name}")
+        if acc is None:
+            chk.feature(f"{mechanism}:{name}:scalar-unknown-to-the-specification")
+            continue
+        if not acc:
+            bad.add((name, json.dumps(nd, sort_keys=True)))
+            chk.violation(f"C20:get_extra_scalar_strategies:{name}:unacceptable-value:{unacceptable_shape(name, nd)}",
+                          f"the built-in strategy for scalar {name} yields {nd.get('t')!r} ({nd['k']} literal) on the choice "
+                          f"sequence {ch}: not an acceptable {name} value",
+                          {"kind": "scalar", "name": name, "choices": enc_choices(ch), "node": nd})
+            chk.disagreement(mechanism, {"scalar": name, "choices": enc_choices(ch)},
+                             "no such node in the value space of the modelled strategy (all of which is acceptable)", nd)
+        elif in_model is False:
+            outside[name] = outside.get(name, 0) + 1
+            chk.feature(f"{mechanism}:{name}:acceptable-but-outside-the-modelled-value-space")
+    for name, draw, prefix, impl, m in differs:
+        if (name, json.dumps(impl, sort_keys=True)) in bad:
+            chk.disagreement(render_mech, {"scalar": name, "draw": draw}, m, impl)
+        else:   # a different but acceptable rendering: the property holds, the theorem no longer describes the code
+            outside[name] = outside.get(name, 0) + 1
+            chk.feature(f"{render_mech}:{name}:differs-from-model-but-acceptable")
+    for name, n in outside.items():
+        chk.partial.append(f"built-in scalar {name}: {n} observed value(s) are acceptable but not what the modelled strategy "
+                           "yields — extra_scalars_safe does not describe this tree's strategy; judged by sampling only")
+    # what the model says the strategies can reach at their extremes: was it reached on the real ones?
+    missed = []
+    for e in table:
+        seen = {k for k in observed.get(e["name"], {})}
+        for draw, nd in e["boundary"]:
+            hit = nd is not None and json.dumps(nd, sort_keys=True) in seen
+            chk.feature(f"{mechanism}:model-boundary-{'reached' if hit else 'not-reached'}")
+            if not hit and e["name"] in extra:
+                missed.append(f"{e['name']} {nd.get('t') if nd else draw}")
+    if missed:
+        chk.notes.append("extreme values of the modelled strategies not produced by the real ones in this run (the real "
+                         f"strategy may be narrower than the model, which is harmless): {missed}")
+
+
+def check_ints_family(chk, rng, n, mechanism="ints-family:integers(lo,hi).map(nodes.Int)"):
+    """the family the built-in integer scalars are members of: real st.integers(lo, hi).map(nodes.Int) vs the model"""
+    drv = chk.driver()
+    edges = [-(2 ** 63) - 1, -(2 ** 63), -(2 ** 63) + 1, -(2 ** 31), -1, 0, 1, 2 ** 31, 2 ** 53, 2 ** 63 - 2, 2 ** 63 - 1, 2 ** 63,
+             2 ** 63 + 1, 2 ** 64]
+    reqs, recs = [], []
+    for _ in range(n):
+        lo = rng.choice([None, rng.choice(edges), rng.choice(edges), rng.randint(-(2 ** 66), 2 ** 66)])
+        hi = rng.choice([None, rng.choice(edges), rng.choice(edges), rng.randint(-(2 ** 66), 2 ** 66)])
+        if lo is not None and hi is not None and lo > hi:
+            lo, hi = hi, lo
+        near = [x for x in (lo, hi) if x is not None] or [0]
+        k = rng.choice(near + edges) + rng.choice([0, 0, 1, -1, rng.randint(-5, 5)])
+        strat = st.integers(min_value=lo, max_value=hi).map(gql_nodes.Int)
+        value, data = drive(strat, [k], 0)
+        impl = node_wire(value) if value is not None and aligned(data, [k]) else None
+        a = {"lo": None if lo is None else str(lo), "hi": None if hi is None else str(hi), "n": str(k)}
+        reqs.append(("ints", a))
+        recs.append((a, strat, lo, hi, impl))
+    outs = drv.batch(reqs)
+    for (a, strat, lo, hi, impl), m in zip(recs, outs):
+        if "__err__" in m:
+            raise InfraError(f"model error {m} on {a}")
+        chk.case(mechanism, key=a, nontrivial=impl is not None, sample={"in": a, "impl": impl})
+        chk.feature(f"{mechanism}:{'in-range' if impl is not None else 'out-of-range'}")
+        chk.feature(f"{mechanism}:safe-for-Long={m['safeForLong']}")
+        if impl != m["node"]:
+            chk.disagreement(mechanism, a, m["node"], impl)
+        # the model's verdict on the family member, tried on the real strategy
+        if m["safeForLong"]:
+            probes = [x for x in (lo, hi) if x is not None]
+        else:
+            probes = [int(m["witness"])]
+        for w in probes:
+            value, data = drive(strat, [w], 0)
+            got = node_wire(value) if value is not None and aligned(data, [w]) else None
+            ok = got is not None and py_acceptable("Long", got)
+            if got is None or ok != m["safeForLong"]:
+                chk.disagreement(mechanism, dict(a, probe=str(w)), {"safeForLong": m["safeForLong"]},
+                                 {"node": got, "acceptable-for-Long": ok})
+    # nodes.py re-exports: every advertised name is hypothesis-graphql's constructor, nothing else resolves
+    import hypothesis_graphql.nodes as hg_nodes
+    for attr in gql_nodes.__all__ + ["Variable", "nope"]:
+        impl = getattr(gql_nodes, attr, None)
+        want = getattr(hg_nodes, attr) if attr in gql_nodes.__all__ else None
+        chk.case("nodes:re-export", key=attr, nontrivial=True, sample={"in": attr, "impl": repr(impl)[:60]})
+        if impl is not want:
+            chk.disagreement("nodes:re-export", attr, repr(want), repr(impl))
+    # String is the identity on text
+    for text in ["", "a", "2020-01-01", "x\ny", 'q"uote', "é"]:
+        nd = node_wire(gql_nodes.String(text))
+        chk.case("nodes:String", key=text, nontrivial=True, sample={"in": text, "impl": nd})
+        if nd != {"k": "str", "t": text}:
+            chk.disagreement("nodes:String", text, {"k": "str", "t": text}, nd)
+
+
+def check_registration(chk, rng, n, mechanism="register:scalar(name, strategy)"):
+    """histories of schemathesis.graphql.scalar(...) calls on an empty registry vs the model's registerAll"""
+    from schemathesis.core.errors import IncorrectUsage
+
+    names = ["Date", "Long", "Weird", "X", "UUID", 5, None, b"Date"]
+    reqs, recs = [], []
+    for _ in range(n):
+        calls, impl_acc = [], []
+        saved = dict(gql_scalars.CUSTOM_SCALARS)
+        gql_scalars.CUSTOM_SCALARS.clear()
+        try:
+            labels = {}
+            for i in range(rng.randint(1, 6)):
+                name = rng.choice(names)
+                label = f"s{i}"
+                good = rng.random() < 0.75
+                strat = st.just(graphql.StringValueNode(value=label)) if good else rng.choice(["text", None, 3, len])
+                labels[id(strat)] = label
+                try:
+                    schemathesis.graphql.scalar(name, strat)
+                    impl_acc.append(True)
+                except IncorrectUsage:
+                    impl_acc.append(False)
+                calls.append([name if isinstance(name, str) else None, good, label, isinstance(name, str)])
+            impl_reg = [[k, labels.get(id(v), "?")] for k, v in gql_scalars.CUSTOM_SCALARS.items()]
+        finally:
+            gql_scalars.CUSTOM_SCALARS.clear()
+            gql_scalars.CUSTOM_SCALARS.update(saved)
+        reqs.append(("register", {"calls": [c[:3] for c in calls]}))
+        recs.append((calls, impl_acc, impl_reg))
+    outs = chk.driver().batch(reqs)
+    for (calls, impl_acc, impl_reg), m in zip(recs, outs):
+        if "__err__" in m:
+            raise InfraError(f"model error {m}")
+        chk.case(mechanism, key=calls, nontrivial=any(impl_acc), sample={"calls": calls, "impl": impl_reg})
+        chk.feature(f"{mechanism}:rejected-calls={sum(1 for a in impl_acc if not a) > 0}")
+        chk.feature(f"{mechanism}:re-registration={len({c[0] for c, a in zip(calls, impl_acc) if a}) < sum(impl_acc)}")
+        if impl_acc != m["accepted"] or impl_reg != m["registry"]:
+            chk.disagreement(mechanism, calls, m, {"accepted": impl_acc, "registry": impl_reg})
+        want = {}
+        for (name, good, label, is_str) in calls:    # statement: the last valid registration of a name is the one in force
+            if is_str and good:
+                want[name] = label
+        if dict(map(tuple, impl_reg)) != want:
+            chk.violation("C20:scalar:registry-differs-from-last-valid-registrations",
+                          f"after {calls} the registry is {impl_reg}, the valid registrations are {want}", {"kind": "register", "calls": calls})
+
+
 # ---- sampled validity of real draws ---------------------------------------------------------------------------------
-
-SCALAR_SHAPES = {
-    "Date": ("string", re.compile(r"^\d{4}-\d\d-\d\d$")),
-    "Time": ("string", re.compile(r"^\d\d:\d\d:\d\d(\.\d+)?Z$")),
-    "DateTime": ("string", re.compile(r"^\d{4}-\d\d-\d\dT\d\d:\d\d:\d\d(\.\d+)?Z$")),
-    "IP": ("string", re.compile(r"^[0-9a-fA-F:.]+$")),
-    "IPv4": ("string", re.compile(r"^\d+\.\d+\.\d+\.\d+$")),
-    "IPv6": ("string", re.compile(r"^[0-9a-fA-F:.]*:[0-9a-fA-F:.]*$")),
-    "BigInt": ("int", None),
-    "Long": ("int", (-(2**63), 2**63 - 1)),
-    "UUID": ("string", re.compile(r"^[0-9a-f]{8}-[0-9a-f]{4}-[0-9a-f]{4}-[0-9a-f]{4}-[0-9a-f]{12}$")),
-}
-
 
 def doc_summary(doc):
     out = []
@@ -558,8 +1045,9 @@ def leaf_values(schema, doc):
     return found
 
 
-def judge_document(chk, ctx, op, body, schema, cfg, registered, drv_targets):
-    """ctx: replay dict; returns list of (signature, what) for one drawn document"""
+def judge_document(chk, ctx, op, body, schema, cfg, registered, leaves):
+    """ctx: replay dict; returns list of (signature, what) for one drawn document; every leaf of a built-in scalar type
+    is appended to `leaves` (judged in one batch by the Lean specification: `flush_leaves`)"""
     problems = []
     try:
         doc = graphql.parse(body)
@@ -596,13 +1084,8 @@ def judge_document(chk, ctx, op, body, schema, cfg, registered, drv_targets):
             if not (isinstance(node, graphql.StringValueNode) and node.value == registered[tname]):
                 problems.append(("C20:document:registered-custom-scalar-not-used",
                                  f"value {graphql.print_ast(node)} of scalar {tname} does not come from the registered strategy"))
-        elif tname in SCALAR_SHAPES:
-            shape, extra = SCALAR_SHAPES[tname]
-            ok = (isinstance(node, graphql.StringValueNode) and extra.match(node.value) is not None) if shape == "string" else \
-                 (isinstance(node, graphql.IntValueNode) and re.fullmatch(r"-?\d+", node.value) is not None
-                  and (extra is None or extra[0] <= int(node.value) <= extra[1]))
-            if not ok:
-                problems.append((f"C20:document:built-in-scalar-{tname}-malformed", f"value {graphql.print_ast(node)} for scalar {tname}"))
+        elif tname in c20_sdl.EXTRA_SCALARS:
+            leaves.append((tname, node_wire(node), ctx))
     return problems, summary
 
 
@@ -628,33 +1111,120 @@ def recursive_input_reachable(cs, triple):
     return any(n in closure(n) for n in reach)
 
 
+LOAD_FORMS = ["sdl", "sdl", "sdl-filelike", "sdl-path", "introspection", "introspection-data", "introspection-json-text"]
+
+
+def load_form(sdl, form):
+    """the same schema through the different loaders of schemathesis.graphql"""
+    if form == "sdl":
+        return load_sdl(sdl)
+    if form == "sdl-filelike":
+        return schemathesis.graphql.from_file(io.StringIO(sdl)).configure(location=LOCATION)
+    if form == "sdl-path":
+        with tempfile.TemporaryDirectory(prefix="verif-c20-") as d:
+            path = os.path.join(d, "schema.graphql")
+            with open(path, "w", encoding="utf-8") as f:
+                f.write(sdl)
+            return schemathesis.graphql.from_path(path).configure(location=LOCATION)
+    raw = copy.deepcopy(load_sdl(sdl).raw_schema)
+    if form == "introspection-json-text":
+        return schemathesis.graphql.from_file(json.dumps(raw)).configure(location=LOCATION)
+    return load_raw(raw, wrap=form == "introspection-data")
+
+
+def checked_sdl(sdl):
+    try:
+        built = graphql.build_schema(sdl)
+        errs = graphql.validate_schema(built)
+    except Exception as e:  # generator bug, not the implementation's
+        raise InfraError(f"generated SDL does not build: {e}\n{sdl}")
+    if errs:
+        raise InfraError(f"generated SDL is invalid: {errs}\n{sdl}")
+
+
+def draw_error_signature(e, cfg, schema, triple):
+    shape = ""
+    if (type(e).__name__ == "Unsatisfiable" and not cfg.graphql_allow_null
+            and recursive_input_reachable(schema.client_schema, triple)):
+        shape = ":recursive-input-object-with-graphql_allow_null-off"
+    elif isinstance(e, ValueError) and "math domain error" in str(e) and any(
+            fr.filename.endswith("hypothesis_graphql/_strategies/oracle.py")
+            for fr in traceback.extract_tb(e.__traceback__)):
+        shape = ":hypothesis-graphql-oracle-math-domain-error"
+    return f"C20:graphql_cases:draw-raises:{type(e).__name__}{shape}"
+
+
+def judge_case(chk, mechanism, op, triple, case, schema, cfg, reg, rep, pending, leaves):
+    body = case.body
+    if not isinstance(body, str):
+        chk.violation("C20:graphql_cases:body-is-not-text", f"case.body is {type(body).__name__}", rep)
+        return
+    problems, summary = judge_document(chk, rep, triple, body, schema, cfg, reg, leaves)
+    chk.case(mechanism, key=[triple, body], nontrivial="(" in body, sample={"op": triple, "body": body})
+    chk.feature(f"{mechanism}:args={'yes' if '(' in body else 'no'}")
+    for sig, what in problems:
+        chk.violation(sig, what, rep)
+    if summary is not None:
+        pending.append((triple, summary, rep))
+    if prepare_body(case) != {"query": body}:
+        chk.violation("C20:prepare_body:payload-is-not-{query:document}", "payload differs from {query: body}", rep)
+    if case.operation is not op or case.media_type != "application/json" or case.method != "POST":
+        chk.violation("C20:graphql_cases:case-not-bound-to-its-operation",
+                      f"case.operation/media_type/method = {case.operation.label}/{case.media_type}/{case.method}", rep)
+
+
+def flush_pending(chk, pending):
+    outs = chk.driver().batch([("targets", {"op": t, "doc": [[k, sels] for k, sels in s]}) for t, s, _ in pending])
+    for (t, s, rep), m in zip(pending, outs):
+        if isinstance(m, dict):
+            raise InfraError(f"model error {m}")
+        if m != py_targets(t, s):
+            raise InfraError(f"Lean spec `targets` and the python oracle disagree on {t} {s}")
+        if not m:
+            chk.violation("C20:document:does-not-select-exactly-its-field",
+                          f"document for {t} has operations/selections {s}", rep)
+
+
+def flush_leaves(chk, leaves, mechanism):
+    """every leaf of a built-in scalar type found in a drawn document, judged by the Lean specification"""
+    first = {}
+    for name, nd, rep in leaves:
+        chk.feature(f"{mechanism}:leaf-of-built-in-scalar:{name}")
+        first.setdefault((name, json.dumps(nd, sort_keys=True)), (name, nd, rep))
+    leaves = list(first.values())
+    verdicts = judge_scalar_nodes(chk, [(n, nd) for n, nd, _ in leaves])
+    for (name, nd, rep), (acc, in_model) in zip(leaves, verdicts):
+        chk.case(f"{mechanism}:built-in-scalar-leaves", key=[name, nd], nontrivial=True, sample={"scalar": name, "node": nd})
+        if acc is False:
+            chk.violation(f"C20:document:built-in-scalar-{name}:unacceptable-value:{unacceptable_shape(name, nd)}",
+                          f"value {nd.get('t')!r} ({nd['k']} literal) for an argument of scalar type {name}", rep)
+        elif in_model is False:
+            chk.feature(f"{mechanism}:leaf-outside-the-modelled-strategy:{name}")   # e.g. the schema's default value
+
+
+def gen_doc_setup(rng, info, mechanism, chk):
+    cfg = GenerationConfig(allow_x00=rng.random() < 0.5, graphql_allow_null=rng.random() < 0.5,
+                           codec=rng.choice(["utf-8", "utf-8", "ascii", "latin-1"]))
+    reg = {c20_sdl.REGISTERED: "REGISTERED"}
+    if rng.random() < 0.4:
+        over = rng.choice([x for x in info["scalars"] if x in c20_sdl.EXTRA_SCALARS])
+        reg[over] = f"REGISTERED-{over}"
+    chk.feature(f"{mechanism}:allow_null={cfg.graphql_allow_null}")
+    chk.feature(f"{mechanism}:allow_x00={cfg.allow_x00}")
+    chk.feature(f"{mechanism}:codec={cfg.codec}")
+    return cfg, reg
+
+
 def check_sampled(chk, rng, n_schemas, n_draws, mechanism="sampled-documents"):
-    drv = chk.driver()
-    pending = []   # (op triple, summary, replay)
+    pending, leaves = [], []   # (op triple, summary, replay), (scalar, node, replay)
     for _ in range(n_schemas):
         sdl, info = c20_sdl.rich_sdl(rng)
-        try:
-            built = graphql.build_schema(sdl)
-            errs = graphql.validate_schema(built)
-        except Exception as e:  # generator bug, not the implementation's
-            raise InfraError(f"generated SDL does not build: {e}\n{sdl}")
-        if errs:
-            raise InfraError(f"generated SDL is invalid: {errs}\n{sdl}")
-        form = rng.choice(["sdl", "introspection", "introspection-data"])
-        schema = load_sdl(sdl)
-        if form != "sdl":
-            schema = load_raw(copy.deepcopy(schema.raw_schema), wrap=form == "introspection-data")
-        cfg = GenerationConfig(allow_x00=rng.random() < 0.5, graphql_allow_null=rng.random() < 0.5,
-                               codec=rng.choice(["utf-8", "utf-8", "ascii", "latin-1"]))
-        reg = {c20_sdl.REGISTERED: "REGISTERED"}
-        if rng.random() < 0.4:
-            over = rng.choice([s for s in info["scalars"] if s in c20_sdl.EXTRA_SCALARS])
-            reg[over] = f"REGISTERED-{over}"
+        checked_sdl(sdl)
+        form = rng.choice(LOAD_FORMS)
+        schema = load_form(sdl, form)
+        cfg, reg = gen_doc_setup(rng, info, mechanism, chk)
         strategies = {k: st.just(graphql.StringValueNode(value=v)) for k, v in reg.items()}
         chk.feature(f"{mechanism}:loaded-from={form}")
-        chk.feature(f"{mechanism}:allow_null={cfg.graphql_allow_null}")
-        chk.feature(f"{mechanism}:allow_x00={cfg.allow_x00}")
-        chk.feature(f"{mechanism}:codec={cfg.codec}")
         with registered_scalars(strategies):
             for res in schema.get_all_operations():
                 op = res.ok()
@@ -667,44 +1237,47 @@ def check_sampled(chk, rng, n_schemas, n_draws, mechanism="sampled-documents"):
                 except Exception as e:
                     chk.case(mechanism, key=[sdl, triple], nontrivial=False)
                     chk.feature(f"{mechanism}:draw-raises={type(e).__name__}")
-                    shape = ""
-                    if (type(e).__name__ == "Unsatisfiable" and not cfg.graphql_allow_null
-                            and recursive_input_reachable(schema.client_schema, triple)):
-                        shape = ":recursive-input-object-with-graphql_allow_null-off"
-                    elif isinstance(e, ValueError) and "math domain error" in str(e) and any(
-                            fr.filename.endswith("hypothesis_graphql/_strategies/oracle.py")
-                            for fr in traceback.extract_tb(e.__traceback__)):
-                        shape = ":hypothesis-graphql-oracle-math-domain-error"
-                    chk.violation(f"C20:graphql_cases:draw-raises:{type(e).__name__}{shape}",
+                    chk.violation(draw_error_signature(e, cfg, schema, triple),
                                   f"no case could be generated for {triple}: {type(e).__name__}: {str(e)[:200]}", rep0)
                     continue
                 for case in cases:
-                    body = case.body
-                    rep = dict(rep0, body=body)
-                    if not isinstance(body, str):
-                        chk.violation("C20:graphql_cases:body-is-not-text", f"case.body is {type(body).__name__}", rep)
-                        continue
-                    problems, summary = judge_document(chk, rep, triple, body, schema, cfg, reg, None)
-                    chk.case(mechanism, key=[triple, body], nontrivial="(" in body, sample={"op": triple, "body": body})
-                    chk.feature(f"{mechanism}:args={'yes' if '(' in body else 'no'}")
-                    for sig, what in problems:
-                        chk.violation(sig, what, rep)
-                    if summary is not None:
-                        pending.append((triple, summary, rep))
-                    if prepare_body(case) != {"query": body}:
-                        chk.violation("C20:prepare_body:payload-is-not-{query:document}", "payload differs from {query: body}", rep)
-                    if case.operation is not op or case.media_type != "application/json" or case.method != "POST":
-                        chk.violation("C20:graphql_cases:case-not-bound-to-its-operation",
-                                      f"case.operation/media_type/method = {case.operation.label}/{case.media_type}/{case.method}", rep)
-    outs = drv.batch([("targets", {"op": t, "doc": [[k, sels] for k, sels in s]}) for t, s, _ in pending])
-    for (t, s, rep), m in zip(pending, outs):
-        if isinstance(m, dict):
-            raise InfraError(f"model error {m}")
-        if m != py_targets(t, s):
-            raise InfraError(f"Lean spec `targets` and the python oracle disagree on {t} {s}")
-        if not m:
-            chk.violation("C20:document:does-not-select-exactly-its-field",
-                          f"document for {t} has operations/selections {s}", rep)
+                    judge_case(chk, mechanism, op, triple, case, schema, cfg, reg, dict(rep0, body=case.body), pending, leaves)
+    flush_pending(chk, pending)
+    flush_leaves(chk, leaves, mechanism)
+
+
+def check_steered(chk, rng, n_schemas, n_base, max_runs, mechanism="steered-documents"):
+    """documents of schemas full of built-in scalars; the wide integer choices of the real `operation.as_strategy()`
+    (the values of Long / BigInt / Int / address literals) are moved to the ends of the ranges the strategy asks for"""
+    pending, leaves = [], []
+    for _ in range(n_schemas):
+        sdl, info = c20_sdl.scalar_sdl(rng)
+        checked_sdl(sdl)
+        form = rng.choice(LOAD_FORMS)
+        schema = load_form(sdl, form)
+        cfg, reg = gen_doc_setup(rng, info, mechanism, chk)
+        reg.pop(c20_sdl.REGISTERED)
+        strategies = {k: st.just(graphql.StringValueNode(value=v)) for k, v in reg.items()}
+        chk.feature(f"{mechanism}:loaded-from={form}")
+        with registered_scalars(strategies):
+            for res in schema.get_all_operations():
+                op = res.ok()
+                triple = op_triple(op)
+                rep0 = {"kind": "doc", "sdl": sdl, "form": form, "op": triple,
+                        "cfg": [cfg.allow_x00, cfg.graphql_allow_null, cfg.codec], "registered": reg}
+                try:
+                    found = explore(op.as_strategy(generation_config=cfg), rng, n_base, max_runs, wide_only=True, greedy=False)
+                except Exception as e:
+                    chk.case(mechanism, key=[sdl, triple], nontrivial=False)
+                    chk.feature(f"{mechanism}:draw-raises={type(e).__name__}")
+                    chk.violation(draw_error_signature(e, cfg, schema, triple),
+                                  f"no case could be generated for {triple}: {type(e).__name__}: {str(e)[:200]}", rep0)
+                    continue
+                for choices, case in found.items():
+                    rep = dict(rep0, choices=enc_choices(choices), body=case.body if isinstance(case.body, str) else None)
+                    judge_case(chk, mechanism, op, triple, case, schema, cfg, reg, rep, pending, leaves)
+    flush_pending(chk, pending)
+    flush_leaves(chk, leaves, mechanism)
 
 
 def end_to_end_witness(chk, variant):
@@ -715,9 +1288,9 @@ def end_to_end_witness(chk, variant):
     cases = draw_cases(op.as_strategy(), 3, 0)
     want = ["QUERY", "Query", "dup"]
     drv = chk.driver()
-    for case in cases:
-        summary = doc_summary(graphql.parse(case.body))
-        ok = drv.one("targets", {"op": want, "doc": [[k, s] for k, s in summary]})
+    summaries = [doc_summary(graphql.parse(case.body)) for case in cases]
+    oks = drv.batch([("targets", {"op": want, "doc": [[k, s] for k, s in summary]}) for summary in summaries])
+    for case, summary, ok in zip(cases, summaries, oks):
         if ok != py_targets(want, summary):
             raise InfraError("Lean spec `targets` and the python oracle disagree on the witness")
         chk.case("witness:end-to-end", key=case.body, nontrivial=True, sample={"requested": want, "body": case.body})
@@ -756,18 +1329,29 @@ def run(chk):
         "settings_passed, scalars_lookup ({**extra, **CUSTOM}: registered wins, built-ins kept), prepareBody_text",
         "document_targets_under_contract: under hypothesis-graphql's targeting contract (explicit hypothesis GenContract) "
         "every document drawn from the requested strategy targets the operation",
+        "extra_scalars_safe: each of the nine built-in scalar strategies (Date, Time, DateTime, IP, IPv4, IPv6, BigInt, Long, "
+        "UUID) yields only acceptable literals of its scalar, for every draw inside the base strategy's support "
+        "(int_node_reads_back: nodes.Int prints an IntValue that reads back; extra_scalars_named)",
+        "ints_safe_for_long_iff / ints_unsafe_witness: over the family integers(lo, hi).map(nodes.Int) the strategy is safe "
+        "for Long iff its range is empty or inside [-2^63, 2^63-1]; otherwise longWitness is a failing draw",
+        "builtin_leaf_acceptable: under hypothesis-graphql's leaf contract a document leaf of a built-in scalar type with no "
+        "registered override is an acceptable literal or a permitted null; inSupport_exact_on_ints",
     ]
     chk.partial += [
-        "the generator itself (hypothesis-graphql) is not modelled: document validity is sampled, not proved",
+        "the generator itself (hypothesis-graphql) is not modelled: document validity is sampled, not proved; its handling of "
+        "custom-scalar leaves enters builtin_leaf_acceptable as the explicit hypothesis LeafContract",
+        "the supports of Hypothesis' base strategies (integers / dates / times / ip_addresses / uuids) are a contract of the "
+        "scalar model, checked by boundary exploration of the real strategies (model boundary values reached)",
         "regular-expression filters are modelled on the fragment ^?literal$? (arbitrary regexes enter the theorems only as "
         "opaque functions); operation_id= filters raise AttributeError on GraphQL operations and are out of the model",
         "hooks on the body strategy (apply_to_all_dispatchers) are not modelled (C19)",
     ]
     chk.sampled_only += [
         "every drawn document parses (graphql.parse), passes graphql.validate against the loaded schema, consists of one "
-        "operation of the right kind selecting only its field; argument values: built-in extra scalars well-formed, registered "
+        "operation of the right kind selecting only its field; argument values: leaves of built-in scalar types judged by the "
+        "Lean specification (also in documents steered to the ends of every wide integer choice), registered "
         "custom scalars used (also over a built-in of the same name), no null when graphql_allow_null is off, no \\x00 when "
-        "allow_x00 is off, strings encodable in the codec",
+        "allow_x00 is off, strings encodable in the codec; values of GraphQL's own scalars through graphql.validate",
     ]
     chk.assumptions += [
         "graphql-core: build_client_schema maps the introspection `types` list to a name-keyed dict (last entry wins) and each "
@@ -775,8 +1359,12 @@ def run(chk):
         "against client_schema itself)",
         "well-formed introspection results have unique type names and unique field names per type",
         "Python `re` on the literal fragment; ASCII method names",
+        "CPython's str() of int / date / time / IPv4Address / IPv6Address / UUID as modelled (checked on forced base draws "
+        "and on every explored value through `inSupport`)",
     ]
-    chk.trusted += ["graphql-core 3.2 (parse, validate, TypeInfo) as the validity oracle", "hypothesis-graphql's contract"]
+    chk.trusted += ["graphql-core 3.2 (parse, validate, TypeInfo) as the validity oracle", "hypothesis-graphql's contract",
+                    "Hypothesis' ConjectureData (any permitted choice sequence is a possible random draw)",
+                    "struct / calendar / libc inet_pton as literal oracles"]
 
     # 1. witnesses first
     wraw = load_sdl(WITNESS_SDL).raw_schema
@@ -804,12 +1392,17 @@ def run(chk):
     check_lookup_groups(chk, groups, variant, "lookups:random")
 
     # 3. selection and statistic
+    forms_rng = _random.Random(f"C20:{chk.seed}:forms")
     items = []
     for _ in range(chk.budget(600, 6000)):
         desc = c20_sdl.index_desc(rng)
         sdl = c20_sdl.desc_to_sdl(desc)
         base_url = rng.choice([None, None, "http://example.com/api/gql", "http://example.com/"])
-        schema = load_sdl(sdl, base_url)
+        form = forms_rng.choice(LOAD_FORMS)     # every loader of schemathesis.graphql must offer the same operations
+        chk.feature(f"select:loaded-from={form}")
+        schema = load_form(sdl, form)
+        if base_url is not None:
+            schema.configure(base_url=base_url)
         labels = [f"{o[1]}.{o[2]}" for o in py_root_fields(schema)]
         items.append({"schema": schema, "sdl": sdl, "base_url": base_url,
                       "specs": gen_filter_specs(rng, labels, schema.base_path)})
@@ -831,8 +1424,15 @@ def run(chk):
     check_calls(chk, rng, chk.budget(150, 1500))
     check_body(chk, rng, chk.budget(150, 1500))
 
-    # 5. sampled validity of real draws
+    # 5. the built-in scalar strategies: value spaces, steered
+    rng2 = _random.Random(f"C20:{chk.seed}:scalars")    # own streams: the older mechanisms keep theirs
+    check_scalar_strategies(chk, rng2, n_forced=chk.budget(60, 800), n_base=chk.budget(5, 40), n_plain=chk.budget(30, 400))
+    check_ints_family(chk, rng2, chk.budget(300, 3000))
+    check_registration(chk, rng2, chk.budget(150, 1500))
+
+    # 6. validity of real draws: sampled, and steered to the ends of the wide integer choices
     check_sampled(chk, rng, chk.budget(30, 300), chk.budget(6, 10))
+    check_steered(chk, _random.Random(f"C20:{chk.seed}:steered"), chk.budget(8, 100), 1, chk.budget(16, 40))
     chk.exhaustive = False
     chk.notes.append(f"lookups: all {len(hs_all)} histories of length <= 3 over 12 (type, field) pairs on the witness schema")
 
@@ -858,19 +1458,37 @@ def replay(chk, data):
         print("model/spec:   ", drv.one("select", {"raw": raw_to_model(schema.raw_schema), "filters": model_filters(applied),
                                                     "basePath": schema.base_path}))
     elif kind == "doc":
-        schema = load_sdl(r["sdl"])
-        if r["form"] != "sdl":
-            schema = load_raw(copy.deepcopy(schema.raw_schema), wrap=r["form"] == "introspection-data")
+        schema = load_form(r["sdl"], r["form"])
         cfg = GenerationConfig(allow_x00=r["cfg"][0], graphql_allow_null=r["cfg"][1], codec=r["cfg"][2])
         strategies = {k: st.just(graphql.StringValueNode(value=v)) for k, v in r["registered"].items()}
         with registered_scalars(strategies):
             op = next(o.ok() for o in schema.get_all_operations() if op_triple(o.ok()) == r["op"])
-            cases = draw_cases(op.as_strategy(generation_config=cfg), r["n"], r["seed"])
+            if "choices" in r:      # a steered draw: the recorded choice sequence
+                prefix = dec_choices(r["choices"])
+                case, data = drive(op.as_strategy(generation_config=cfg), prefix, 0)
+                cases = [case] if case is not None and aligned(data, prefix) else []
+                print("choice sequence:", prefix, "accepted by the strategy now:", bool(cases))
+            else:
+                cases = draw_cases(op.as_strategy(generation_config=cfg), r["n"], r["seed"])
         print("operation:", r["op"], "config:", r["cfg"])
         print("recorded document:\n", r.get("body"))
         for c in cases:
-            problems, summary = judge_document(chk, r, r["op"], c.body, schema, cfg, r["registered"], None)
+            leaves = []
+            problems, summary = judge_document(chk, r, r["op"], c.body, schema, cfg, r["registered"], leaves)
             print("impl now:", repr(c.body), "->", problems, "targets:", py_targets(r["op"], summary) if summary else None)
+            for (name, nd, _), (acc, in_model) in zip(leaves, judge_scalar_nodes(chk, [(n, nd) for n, nd, _ in leaves])):
+                print(f"  leaf of scalar {name}: {nd} -> spec acceptable: {acc}; in the modelled strategy's value space: {in_model}")
+    elif kind == "scalar":
+        strat = gql_scalars.get_extra_scalar_strategies()[r["name"]]
+        prefix = dec_choices(r["choices"])
+        value, data = drive(strat, prefix, 0)
+        ok = value is not None and aligned(data, prefix)
+        print("scalar:", r["name"], "choice sequence:", prefix)
+        print("recorded node:", r.get("node"))
+        print("impl now:     ", node_wire(value) if ok else "the strategy does not permit this choice sequence")
+        if ok:
+            nd = node_wire(value)
+            print("spec / model: ", drv.one("scalar_judge", {"name": r["name"], "node": nd}), "python oracle:", py_acceptable(r["name"], nd))
     elif kind == "call":
         schema = load_sdl(r["sdl"])
         root, tname, fname = r["op"]
@@ -886,4 +1504,7 @@ def replay(chk, data):
                                          "extra": list(gql_scalars.get_extra_scalar_strategies()), "custom": list(gql_scalars.CUSTOM_SCALARS)}))
     elif kind == "body":
         print("input:", r["a"], "model:", drv.one("body", r["a"]))
+    elif kind == "register":
+        print("calls [name | None, is a strategy, label, name is a str]:", r["calls"])
+        print("model:", drv.one("register", {"calls": [c[:3] for c in r["calls"]]}))
     return 0
